@@ -409,6 +409,39 @@ def leap_tlc_states(y0, y1):
         shutil.rmtree(tmp, ignore_errors=True)
 
 
+def run_table_pairs(block, ctx):
+    """Every ordered pair of automaton states: leap_seconds(y1, m1) then leap_seconds(y2, m2) (and the Delta-T of
+    the second month after the Delta-T of the first): the second answer must be the table / polynomial value of
+    its own month (3.3 million pairs)."""
+    st = iers.states(1950, 2100)
+    ls = Epoch.leap_seconds
+    dt_ref = dict(((y, m), Epoch.tt2ut(y, m)) for (y, m, c) in st)
+    for (y1, m1, c1) in block:
+        bad = 0
+        for (y2, m2, c2) in st:
+            ls(y1, m1)
+            g = ls(y2, m2)
+            if g != c2:
+                bad += 1
+                if bad <= 2:
+                    ctx.viol({"y": y2, "m": m2, "count": c2, "after": [y1, m1]}, "leap_seconds(%d,%d) right after "
+                             "leap_seconds(%d,%d) = %r, IERS history gives %d" % (y2, m2, y1, m1, g, c2), site="table_pair")
+        for (y2, m2, c2) in st[::7]:
+            Epoch.tt2ut(y1, m1)
+            if Epoch.tt2ut(y2, m2) != dt_ref[(y2, m2)]:
+                bad += 1
+                if bad <= 4:
+                    ctx.viol({"y": y2, "m": m2, "count": c2, "after": [y1, m1]}, "tt2ut(%d,%d) right after tt2ut(%d,%d) "
+                             "differs from its value in isolation" % (y2, m2, y1, m1), site="table_pair")
+        ctx.evals += 2 * len(st) + 2 * len(st[::7])
+        ctx.transitions += len(st)
+        ctx.nt_count += len(st)
+        ctx.outcome(bad)
+    ctx.traces += len(block)
+    ctx.obs(block[0], block[-1])
+    ctx.sample({"first": list(block[0][:2]), "second": "every state 1950-01..2100-12"})
+
+
 def run_tlc(window, ctx):
     y0, y1 = window
     states = sorted(leap_tlc_states(y0, y1), key=lambda s: (s["y"], s["m"]))
@@ -460,6 +493,7 @@ def clauses(tier):
         Clause("api_history", chunks(hists, 16), run_api, lambda c: check_api_history(tuple(c["history"])),
                floor=100, shape="H"),
         Clause("automaton", chunks(st, 48), run_states, replay_states, floor=1000, shape="S"),
+        Clause("table_pairs", chunks(st, 64), run_table_pairs, replay_states, floor=1000000, shape="H"),
         Clause("delta_t", chunks(list(range(-2000, 3001)), 16), run_dt,
                lambda c: [x[1] for x in check_dt(c["y"], c["m"])], floor=10000, shape="S"),
     ]
